@@ -350,7 +350,19 @@ func (tr *specTr) call(x *ECall, env *trEnv) trRes {
 				se := &SpecEnv{fc: tr.fc, pkg: env.pkg}
 				t := se.resolveType(exprString(x.Args[1]))
 				return trRes{code: fmt.Sprintf("func() bool { _, ok := any(%s).(%s); return ok }()", arg(0).code, tr.g.typeStr(t)), isBool: true}
-			case "fresh", "allocated", "arr", "iface", "iscell", "byteseq", "ghostint", "ghostbytes", "ghostvar", "ptrof", "seq", "cat", "kvkey", "kvval", "bytes":
+			case "fresh":
+				if !tr.post {
+					arg(0)
+					return trRes{code: "false", isBool: true} // nothing that exists at entry was allocated by the call
+				}
+				tr.fail("fresh(...) in a post-state is not observable at run time")
+			case "allocated":
+				if !tr.post && len(x.Args) == 1 {
+					arg(0)
+					return trRes{code: "true", isBool: true} // every value of the entry state denotes an existing object
+				}
+				tr.fail("allocated(...) is specification-only state")
+			case "arr", "iface", "iscell", "byteseq", "ghostint", "ghostbytes", "ghostvar", "ptrof", "seq", "cat", "kvkey", "kvval", "bytes":
 				tr.fail("%s(...) is specification-only state (not observable at run time)", id.Name)
 			}
 			if replayIntConv[id.Name] {
